@@ -55,6 +55,8 @@ func c07ApplyRef(s ref.RuleSet, kind string) ref.RuleSet {
 		return ref.Merge(s, c07Set(c07Incr))
 	case "remove":
 		return ref.Remove(s, c07Rm)
+	case "full0": // a full update with the text the pool was constructed from
+		return ref.Replace(s, c07Set(c07V1))
 	}
 	return s
 }
@@ -67,6 +69,8 @@ func c07ApplyPool(gp *engine.GenginePool, kind string) error {
 		return gp.UpdatePooledRulesIncremental(c07Text(c07Incr))
 	case "remove":
 		return gp.RemoveRules(c07Rm)
+	case "full0":
+		return gp.UpdatePooledRules(c07Text(c07V1))
 	case "badfull": // a full update that does not compile: must fail and change nothing
 		return gp.UpdatePooledRules("rule \"a\" begin x = = end")
 	}
@@ -425,7 +429,7 @@ func c07Configs(thorough bool) (cfgs []c07Cfg, bounds []int) {
 			}
 		}
 		// two updates in sequence against one executor
-		for _, ks := range [][]string{{"full", "incr"}, {"incr", "remove"}, {"remove", "full"}, {"remove", "incr"}, {"badfull", "incr"}, {"badfull", "remove"}} {
+		for _, ks := range [][]string{{"full", "incr"}, {"incr", "remove"}, {"remove", "full"}, {"remove", "incr"}, {"badfull", "incr"}, {"badfull", "remove"}, {"remove", "full0"}, {"full0", "incr"}} {
 			if !thorough && m != "sort" && m != "nsortmc" && m != "dag" {
 				continue
 			}
@@ -451,7 +455,7 @@ func init() {
 		BudgetQuick: 300 * time.Second,
 		BudgetThor:  30 * time.Minute,
 		Kind:        "schedules",
-		Rule: "pool (1,2), version-tagged rule sets whose versions differ in tags and membership; updater thread performing 1-2 updates from {full, incremental, removal, a full update that does not compile (must fail and change nothing) followed by an incremental update / removal} against 1-2 executions in each of 10 pool execution paths {sort, concurrent, mix, inverse-mix, N-sort-M-conc, N-conc-M-sort, N-conc-M-conc, DAG (2 layers), selected, configured-model}, every schedule with <=2 (thorough: 3 for the sort model, and all configurations for all ten paths) deviations from the default scheduler (delay bounding: a preemption, or running another thread than the lowest-numbered enabled one when the running thread blocks or ends); an update triggered from inside a running rule; executions started after the update returned (both instances); one client issuing two executions in a row while an update is under way (instance reuse); two update calls racing with each other, executions afterwards (they must run what some serial order of the calls installs). " +
+		Rule: "pool (1,2), version-tagged rule sets whose versions differ in tags and membership; updater thread performing 1-2 updates from {full, incremental, removal, a full update that does not compile (must fail and change nothing) followed by an incremental update / removal, a full update with the text the pool was built from after a removal} against 1-2 executions in each of 10 pool execution paths {sort, concurrent, mix, inverse-mix, N-sort-M-conc, N-conc-M-sort, N-conc-M-conc, DAG (2 layers), selected, configured-model}, every schedule with <=2 (thorough: 3 for the sort model, and all configurations for all ten paths) deviations from the default scheduler (delay bounding: a preemption, or running another thread than the lowest-numbered enabled one when the running thread blocks or ends); an update triggered from inside a running rule; executions started after the update returned (both instances); one client issuing two executions in a row while an update is under way (instance reuse); two update calls racing with each other, executions afterwards (they must run what some serial order of the calls installs). " +
 			"Oracle (regular-register history check on the global call/return log): each execution's result map equals the reference result of exactly ONE snapshot, that snapshot is not older than the last update that returned before the execution was called and not newer than the last update called before it returned; no panic, no deadlock",
 		Assume: []string{"sequentially consistent memory", "nothing is demanded about the relative order of two overlapping executions"},
 		Run: func(c *hx.Ctx) {
